@@ -1,0 +1,9 @@
+//go:build !verif
+
+package check
+
+import (
+	a "github.com/google/wuffs/lang/ast"
+)
+
+func (q *checker) verifObserve(stmt *a.Node) {}
